@@ -56,11 +56,24 @@ func UriTable(v interface{}) M {
 	return tab
 }
 
+// BLS12-381 G2 public keys (compressed points, 96 bytes): the JWK of a Bls12381G2Key2020 key is written with
+// kty EC and has no y
+var blsKeys = []string{
+	"mKw6dmtdq2wwPzB-Ju6e8szAmIpyFCYfSUxU3v6DQIOAE8NBbIeMJ_gQBCfeVIYBCh5KRmNLcOYnyglZoSgFw_M0kfFObIx2uIQ8d3YkWuaUGiJVTBLcdP6A0w4kJRN6",
+	"okIY1c9tGhm3ZSRk8O8cpCFsQxKttRYIaJoDdP37JoWlgAcpoVTJftRBK5YzLhOtDdtFs2tKttRzSAaeB21lnnUnWc58a7E4szQZ_iN5VihM39Rg_CTpbYNycpHHG362",
+	"lOLmUdckbm1QrptvG6_G2q5BWALintyVfmd5F6hAixxXrm3zewmXZr0X5uT-uSY0BEbUvKY3Ozu_n--UIhosg-prIG6drrjE-OXDLmePEihv3M5zLg8BMPxGootrS_0s",
+	"i0P2bQZ_U_sIRHo1t6chBPiYU1eIro2BAHbiJ3VKSsir0CCoEZGHgUYiSrh1zQvoEzTVdweeWNYcwUzI76bpnhtz_LnPzca_DrgIhk4y_udnHVBG1Ihsjms67jxc1eqX",
+}
+
+func blsJWK(r *rand.Rand) M { return M{"kty": "EC", "crv": "BLS12381_G2", "x": pick(r, blsKeys)} }
+
 func validKey(r *rand.Rand, id string) M {
 	typ := pick(r, keyTypes)
 	k := M{"id": id, "type": typ}
 	jwkOK := typ == "JsonWebKey2020" || typ == "EcdsaSecp256k1VerificationKey2019" || r.Intn(2) == 0
-	if jwkOK {
+	if jwkOK && typ == "Bls12381G2Key2020" && r.Intn(2) == 0 {
+		k["publicKeyJwk"] = blsJWK(r)
+	} else if jwkOK {
 		kt := opb.KeyType(r.Intn(int(opb.NumKeyTypes)))
 		if typ == "EcdsaSecp256k1VerificationKey2019" {
 			kt = opb.Secp256k1
